@@ -10,6 +10,7 @@ import (
 	"math/big"
 	"net"
 	"reflect"
+	"sort"
 	"strconv"
 	"strings"
 	"time"
@@ -1272,13 +1273,7 @@ func renderSeq(ts []datatype.DataType, es []AV, open, close string) string {
 	return open + strings.Join(parts, ", ") + close
 }
 
-func sortStrings(a []string) {
-	for i := 1; i < len(a); i++ {
-		for j := i; j > 0 && a[j] < a[j-1]; j-- {
-			a[j], a[j-1] = a[j-1], a[j]
-		}
-	}
-}
+func sortStrings(a []string) { sort.Strings(a) }
 
 // EqualAV compares by value (maps as sets of entries; NaN equal to itself by bits).
 func EqualAV(dt datatype.DataType, a, b AV) bool { return RenderAV(dt, a) == RenderAV(dt, b) }
